@@ -1365,6 +1365,15 @@ impl StateMachine for FileStateMachine {
                 key_len_bytes[7],
             ]) as usize;
 
+            // A record is `key_len | key | value_len | value | term`: after the key at least
+            // 16 more bytes follow. The lease section that generate_snapshot_data() appends
+            // after the last record is `lease_len | lease` and ends exactly at the end of the
+            // buffer, so a length prefix that leaves no room for value_len + term starts the
+            // lease section, not a record. Leave it for the lease reload below.
+            if pos + 8 + key_len + 16 > buffer.len() {
+                break;
+            }
+
             pos += 8;
 
             // Read key
@@ -1440,7 +1449,7 @@ impl StateMachine for FileStateMachine {
             ]) as usize;
             pos += 8;
 
-            if pos + ttl_len <= buffer.len() {
+            if ttl_len > 0 && pos + ttl_len <= buffer.len() {
                 let ttl_data = &buffer[pos..pos + ttl_len];
                 if let Some(ref lease) = self.lease {
                     lease.reload(ttl_data)?;
